@@ -81,8 +81,10 @@ type treePlan struct {
 	orderCap  int // max orders enumerated per tree
 	randOrder int // serial runs with random order for trees that are too big to enumerate
 	freeRuns  int
-	nShaped   int // shaped schedules (see shapedSpec)
-	nStress   int // unshaped fan-outs with one failing stage
+	nShaped   int         // shaped schedules (see shapedSpec)
+	nStress   int         // unshaped fan-outs with one failing stage
+	nilSys    []*treeSpec // systematic small trees with stages whose Plan() returns nil
+	nNil      int         // random families around a nil-plan stage (see nilSpec)
 }
 
 func newTreePlan(seed int64, quick bool) *treePlan {
@@ -95,6 +97,9 @@ func newTreePlan(seed int64, quick bool) *treePlan {
 		p.randOrder = 2
 		p.freeRuns = 1
 		p.nShaped, p.nStress = 500, 1500
+		p.nilSys = nilSystematicSpecs(3, []string{oOK, oErr, oPanicStr})
+		p.nilSys = append(p.nilSys, sampleSpecs(nilSystematicSpecs4(), 250, seed)...)
+		p.nNil = 700
 	} else {
 		p.sys = systematicSpecs(4, []string{oOK, oErr, oPanicStr, oNFIgnored, oCompletePanic})
 		p.nRandom = 220_000
@@ -103,25 +108,74 @@ func newTreePlan(seed int64, quick bool) *treePlan {
 		p.randOrder = 3
 		p.freeRuns = 2
 		p.nShaped, p.nStress = 20_000, 100_000
+		p.nilSys = nilSystematicSpecs(3, []string{oOK, oErr, oPanicStr, oCompletePanic})
+		p.nilSys = append(p.nilSys, nilSystematicSpecs4()...)
+		p.nNil = 60_000
 	}
 	return p
 }
 
-func (p *treePlan) items() int { return len(p.sys) + p.nRandom + p.nShaped + p.nStress }
+// nilSystematicSpecs4: the trees with exactly four stages over {ok, err, nil-plan} that contain a stage without a plan.
+func nilSystematicSpecs4() []*treeSpec {
+	var res []*treeSpec
+	for _, t := range nilSystematicSpecs(4, []string{oOK, oErr}) {
+		if t.N == 4 {
+			res = append(res, t)
+		}
+	}
+	return res
+}
+
+// sampleSpecs picks n of the specs, a function of the seed only.
+func sampleSpecs(all []*treeSpec, n int, seed int64) []*treeSpec {
+	if n >= len(all) {
+		return all
+	}
+	r := rand.New(rand.NewSource(seed*48271 + 11))
+	idx := r.Perm(len(all))[:n]
+	sort.Ints(idx)
+	res := make([]*treeSpec, 0, n)
+	for _, k := range idx {
+		res = append(res, all[k])
+	}
+	return res
+}
+
+func (p *treePlan) items() int {
+	return len(p.sys) + p.nRandom + p.nShaped + p.nStress + len(p.nilSys) + p.nNil
+}
+
+// kind tells which family item i belongs to and its index inside the family.  The families are laid out one after
+// the other: sys, random, shaped, stress, nilsys, nil.
+func (p *treePlan) kind(i int) (string, int) {
+	for _, f := range []struct {
+		name string
+		n    int
+	}{{"sys", len(p.sys)}, {"random", p.nRandom}, {"shaped", p.nShaped}, {"stress", p.nStress}, {"nilsys", len(p.nilSys)}, {"nil", p.nNil}} {
+		if i < f.n {
+			return f.name, i
+		}
+		i -= f.n
+	}
+	return "", -1
+}
 
 func (p *treePlan) spec(i int) (*treeSpec, *randSrc) {
 	r := newRandSrc(p.seed*7919 + int64(i)*104729 + 17)
-	if i < len(p.sys) {
-		return p.sys[i], r
-	}
 	rr := rand.New(rand.NewSource(p.seed*1000003 + int64(i)*7919 + 424243))
-	switch k := i - len(p.sys) - p.nRandom; {
-	case k < 0:
+	switch kind, k := p.kind(i); kind {
+	case "sys":
+		return p.sys[k], r
+	case "nilsys":
+		return p.nilSys[k], r
+	case "random":
 		return randomSpec(rr, p.lim), r
-	case k < p.nShaped:
+	case "shaped":
 		return shapedSpec(rr), r
-	default:
+	case "stress":
 		return stressSpec(rr), r
+	default:
+		return nilSpec(rr), r
 	}
 }
 
@@ -160,6 +214,11 @@ func (p *treePlan) runItem(i int, slot string, race bool, a *agg, logf func(stri
 			a.count("decision_points_with_alternatives", real)
 		}
 		if out.Watchdog != "" {
+			if os.Getenv("VERIF_C19_DEBUG") != "" {
+				for _, e := range out.Trace {
+					fmt.Fprintln(os.Stderr, "  ", e.String())
+				}
+			}
 			a.mu.Lock()
 			if len(a.res.Inconclusive) < 5 {
 				a.res.Inconclusive = append(a.res.Inconclusive, fmt.Sprintf("tree %d (%s): %s", i, canon, out.Watchdog))
@@ -189,9 +248,11 @@ func (p *treePlan) runItem(i int, slot string, race bool, a *agg, logf func(stri
 			})
 		}
 	}
-	if k := i - len(p.sys) - p.nRandom; k >= 0 {
+	kind, _ := p.kind(i)
+	a.count("tree_items_"+kind, 1)
+	if kind == "shaped" || kind == "stress" {
 		// shaped schedules and the unshaped stress only make sense with real concurrency
-		shaped := k < p.nShaped
+		shaped := kind == "shaped"
 		runs := 1
 		if shaped {
 			runs = 2
@@ -213,7 +274,7 @@ func (p *treePlan) runItem(i int, slot string, race bool, a *agg, logf func(stri
 		}
 		return
 	}
-	sysItem := i < len(p.sys)
+	sysItem := kind == "sys" || kind == "nilsys"
 	gated := gatedStages(spec)
 	serialRuns := 0
 	if !race {
@@ -301,6 +362,9 @@ func completionOrder(out *caseOutcome) string {
 	return sb.String()
 }
 
+// maxUnjudgedCases: a child stops after that many cases its driver could not judge (each costs a watchdog).
+const maxUnjudgedCases = 3
+
 // childTrees is the entry point of a tree worker process:
 // child-trees <result.json> <case.log> <mod> <rem> <workers> <race:0|1> [<maxItems>]
 func childTrees(args []string) {
@@ -339,8 +403,11 @@ func childTrees(args []string) {
 		if i%mod != rem {
 			continue
 		}
-		if race && maxItems >= 0 && i >= len(p.sys) && i-len(p.sys) >= maxItems {
-			continue
+		if kind, k := p.kind(i); race && maxItems >= 0 {
+			// under the race detector: the systematic trees, the first maxItems random trees, a share of the nil-plan families
+			if (kind == "random" && k >= maxItems) || kind == "shaped" || kind == "stress" || (kind == "nilsys" && k%4 != 0) || (kind == "nil" && k >= maxItems/2) {
+				continue
+			}
 		}
 		list = append(list, i)
 	}
@@ -349,11 +416,29 @@ func childTrees(args []string) {
 	for w := 0; w < workers; w++ {
 		slots <- fmt.Sprintf("w%d", w)
 	}
+	// An execution the driver cannot judge costs one case watchdog each: after a few of them the child stops and reports
+	// what it judged so far plus a precise inconclusive, instead of running into the child's own watchdog.
+	const maxUnjudged = maxUnjudgedCases
+	skipped := 0
 	core.Parallel(len(list), workers, func(k int) {
+		a.mu.Lock()
+		stop := a.res.Counters["watchdog_cases"] >= maxUnjudged
+		if stop {
+			skipped++
+		}
+		a.mu.Unlock()
+		if stop {
+			return
+		}
 		slot := <-slots
 		p.runItem(list[k], slot, race, a, logf)
 		slots <- slot
 	})
+	if skipped > 0 {
+		a.mu.Lock()
+		a.res.Inconclusive = append(a.res.Inconclusive, fmt.Sprintf("%d executions could not be judged by the driver (see above); the remaining %d tree items of this child were not run", maxUnjudged, skipped))
+		a.mu.Unlock()
+	}
 	a.write(resFile)
 	_ = lf.Close()
 }
